@@ -137,5 +137,14 @@ def run(ctx):
         codec.stop_packages(pkgs)
 
 
+
+_run_inner = run
+
+
+def run(ctx):          # noqa: F811
+    _run_inner(ctx)
+    import batchdriver
+    batchdriver.run(ctx, "C17")
+
 def replay(ctx, path):
     print(json.dumps(json.load(open(path)), indent=1)[:4000])
